@@ -26,6 +26,7 @@ type Config struct {
 	MapOrderFns    map[string]bool // functions in which map range order is nondeterministic
 	SymbolicLen    bool            // vpNondetString keeps a symbolic length instead of forking
 	TimeoutS       int             // wall-clock budget of one harness run
+	Spellings      bool            // documents remember that encoding/json.Marshal wrote them (HTML-escaped spelling); hashes and signatures tell that spelling from the canonical one
 	RealTokenCodec bool            // tokens.(de)serializeMacaroon are interpreted (base64 + macaroon binary format) instead of the ideal codec
 	Races          bool            // log heap accesses of goroutines and report unsynchronised conflicting ones (goroutines.go)
 	TickingClock   bool            // with FixedClock: every reading is one microsecond later than the previous one
